@@ -248,6 +248,7 @@ pub fn gen_c17(run: &mut crate::Run, seed: u64, thorough: bool) {
                         _ => (right.tok(), "right"),
                     },
                     4 => (owner0.tok(), if *right == owner0 { "right" } else { "first-owner" }),
+                    5 => ("*".into(), "everyone"),
                     _ => (right.tok(), "right"),
                 }
             };
